@@ -1,5 +1,7 @@
 //! Property checks.
 pub mod c01;
+pub mod c15;
+pub mod c17;
 pub mod c18;
 pub mod c19;
 pub mod common;
@@ -11,6 +13,8 @@ pub fn run(id: &str, tier: &str) -> i32 {
     }
     match id {
         "C01" => c01::run(tier),
+        "C15" => c15::run(tier),
+        "C17" => c17::run(tier),
         "C18" => c18::run(tier),
         "C19" => c19::run(tier),
         _ => {
@@ -71,6 +75,8 @@ pub fn replay(path: &str) -> i32 {
 
 fn replay_input(id: &str, _inp: &serde_json::Value) -> i32 {
     match id {
+        "C15" => c15::replay_input(_inp),
+        "C17" => c17::replay_input(_inp),
         "C18" => c18::replay_input(_inp),
         "C19" => c19::replay_input(_inp),
         _ => {
